@@ -95,6 +95,11 @@ def const_of(fn, v, depth=0):
             if len(st) == 1: return const_of(fn, st[0].ops[0], depth + 1)
     return None
 
+def reaching_stores(fn, cfg, ld):
+    """stores to the local loaded by `ld` that can be the last one before it"""
+    sts = [x for x in fn.ins if x.op == 'store' and x.ops[1] == ld.ops[0]]
+    return [x for x in sts if ld in cfg.reach(x, avoid=[y for y in sts if y is not x])]
+
 def param_slot(fn, index):
     """alloca that receives parameter #index at function entry (clang -O0: %x.addr)"""
     if index >= len(fn.params): return None
@@ -299,17 +304,24 @@ def prim_calls(fn, names):
 WPRIM = {'yytbl_write8': 8, 'yytbl_write16': 16, 'yytbl_write32': 32}
 RPRIM = {'yytbl_read8': 8, 'yytbl_read16': 16, 'yytbl_read32': 32}
 
-def compare_chain(rep, tag, file, fname, what, doc, got, anchor):
-    """got: list of (width, field, ins).  One instance per documented field."""
+def compare_chain(rep, tag, file, fname, what, doc, got, anchor, peer=None):
+    """got: list of (width, field, ins).  One instance per documented field: the width is the documented one, the field
+    is the documented one (a field the manual does not know - a renamed member - is accepted when it is not another
+    documented field and, on the reader side, is the member the writer emits at that position)."""
+    docnames = {n for n, _ in doc}
     for i, (dname, dw) in enumerate(doc):
         key = 'C15.R1:%s:%s:field#%d' % (file, fname, i + 1)
         if i >= len(got):
             fail(rep, 'C15.R1', key, fwhere(anchor), '%s: %s field #%d (%s, %d bits in the manual) is not %s [%s]' % (fname, what, i + 1, dname, dw, 'written' if file.endswith('.c') else 'read', tag))
             continue
         w, f, ins = got[i]
-        if w != dw or f != dname:
-            fail(rep, 'C15.R1', key, where(ins), '%s: %s field #%d is %s as %d bits; the manual (and the other side) has %s as %d bits [%s]' % (fname, what, i + 1, f or '?', w, dname, dw, tag))
+        pf = peer[i][1] if peer is not None and i < len(peer) else None
+        wrong_field = f != dname and (f is None or f in docnames or (pf is not None and pf != f))
+        if w != dw or wrong_field:
+            fail(rep, 'C15.R1', key, where(ins), '%s: %s field #%d is %s as %d bits; the manual has %s as %d bits%s [%s]' %
+                 (fname, what, i + 1, f or '?', w, dname, dw, (', flex writes %s there' % pf) if pf is not None else '', tag))
         else:
+            if f != dname: rep.note('%s: %s field #%d is called %s in the code, %s in the manual' % (fname, what, i + 1, f, dname))
             rep.ok('C15.R1', '%s %s field #%d %s: %d bits' % (tag, fname, i + 1, f, w))
     for j in range(len(doc), len(got)):
         w, f, ins = got[j]
@@ -466,7 +478,10 @@ def writer_checks(ctx, doc):
     tail = chain[k:]
     strs = [c for c in tail if norm(c.callee) == 'yytbl_writen']
     sf = [field_in_slice(hf, res, c.ops[1], ('yytbl_hdr',)) for c in strs]
-    if [f[1] if f else None for f in sf] == ['th_version', 'th_name'] and tail[len(strs):] == ([pi[4]] if len(pi) > 4 else []) and (len(pi) > 4 or pi[2]):
+    sn = [f[1] if f else None for f in sf]
+    docn = {n for n, _ in doc['header']}
+    strings_ok = sn == ['th_version', 'th_name'] or (len(sn) == 2 and None not in sn and sn[0] != sn[1] and not (set(sn) & (docn | {'th_version', 'th_name'})))
+    if strings_ok and tail[len(strs):] == ([pi[4]] if len(pi) > 4 else []) and (len(pi) > 4 or pi[2]):
         rep.ok('C15.R1', 'flex yytbl_hdr_fwrite: then th_version[], th_name[], pad')
     else:
         fail(rep, 'C15.R1', 'C15.R1:tables.c:yytbl_hdr_fwrite:strings-pad', fwhere(hf), 'yytbl_hdr_fwrite: after the fixed fields the manual has th_version[], th_name[], th_pad64[]; found %s' %
@@ -572,7 +587,22 @@ def writer_checks(ctx, doc):
         fail(rep, 'C15.R5', 'C15.R5:tables.c:yytbl_hdr_init:magic', where(ms[-1]), 'flex writes magic number 0x%08X; the manual says 0x%08X' % (W['magic'], doc['magic']))
     else:
         rep.ok('C15.R5', 'flex yytbl_hdr_init: th_magic = 0x%08X' % W['magic'])
-    # main() hands the initialised header to yytbl_hdr_fwrite
+    # ---- name of the table set: snprintf(name, n, "%s<suffix>", ctrl.prefix) handed to yytbl_hdr_init
+    W['name_suffix'] = None
+    for hc in prog.callers('yytbl_hdr_init'):
+        f = hc.fn; r2 = Resolver(f)
+        nl = f.def_of(flow.strip_casts(f, hc.ops[2]))
+        nloc = r2.loc(nl.ops[0]) if nl is not None and nl.op == 'load' else None
+        for sc in f.ins:
+            if sc.op != 'call' or sc.callee not in ('snprintf', 'sprintf', '__snprintf_chk'): continue
+            dl_ = f.def_of(flow.strip_casts(f, sc.ops[0]))
+            if dl_ is None or dl_.op != 'load' or r2.loc(dl_.ops[0]) != nloc: continue
+            fmts = [flow.const_arg(f, a) for a in sc.ops[1:]]
+            fmts = [x for x in fmts if isinstance(x, str) and '%s' in x]
+            pf = [a for a in sc.ops if field_in_slice(f, r2, a, ('ctrl_bundle_t',)) == ('ctrl_bundle_t', 'prefix')]
+            if len(fmts) == 1 and fmts[0].startswith('%s') and fmts[0].count('%') == 1 and pf:
+                W['name_suffix'] = fmts[0][2:]; W['name_site'] = sc
+    if W['name_suffix'] is None: rep.broken('cannot find how flex names the table set (snprintf("%s...", ctrl.prefix) handed to yytbl_hdr_init)')
     W['F'] = F
     return W
 
@@ -607,7 +637,7 @@ def reader_checks(ctx, v, W, doc):
         c = chain[k]; f = field_addressed(hr, res, c.ops[0], ('yytbl_hdr',))
         fixed.append((RPRIM[norm(c.callee)], f[1] if f else None, c)); k += 1
     extra = chain[k + 1:]
-    compare_chain(rep, tag, SKEL, 'yytbl_hdr_read', 'header', doc['header'], fixed, hr)
+    compare_chain(rep, tag, SKEL, 'yytbl_hdr_read', 'header', doc['header'], fixed, hr, W['hdr_fixed'])
     if extra:
         fail(rep, 'C15.R1', 'C15.R1:%s:yytbl_hdr_read:after-strings' % SKEL, where(extra[0]), 'yytbl_hdr_read reads further fields after the strings/padding block; the writer emits none [%s]' % tag)
     fixed_bytes = sum(w for w, _, _ in fixed) // 8
@@ -616,22 +646,22 @@ def reader_checks(ctx, v, W, doc):
     unit = const_of(hr, fr[0].ops[1]); cnt = fr[0].ops[2]
     if unit != 1: unit, cnt = const_of(hr, fr[0].ops[2]), fr[0].ops[1]
     K = None; from_hsize = False
-    # follow the count through a local
-    work = [cnt]; seen = set(); steps = 0
+    # follow the count through locals (only the stores that reach the use)
+    work = [cnt]; seen = set(); steps = 0; Ks = set()
     while work and steps < 50:
         steps += 1
         x = work.pop()
         for d in flow.value_slice(hr, x):
             if id(d) in seen: continue
             seen.add(id(d))
-            if d.op == 'sub' and d.ops[1][0] == 'int': K = d.ops[1][1]
-            if d.op == 'add' and d.ops[1][0] == 'int' and d.ops[1][1] < 0: K = -d.ops[1][1]
+            if d.op == 'sub' and d.ops[1][0] == 'int': Ks.add(d.ops[1][1])
+            if d.op == 'add' and d.ops[1][0] == 'int': Ks.add(-d.ops[1][1])
             if d.op == 'load':
                 if field_of(res.loc(d.ops[0])) == ('yytbl_hdr', 'th_hsize'): from_hsize = True
                 a = hr.def_of(d.ops[0])
                 if a is not None and a.op == 'alloca':
-                    for s_ in hr.ins:
-                        if s_.op == 'store' and s_.ops[1] == d.ops[0]: work.append(s_.ops[0])
+                    for s_ in reaching_stores(hr, cfg, d): work.append(s_.ops[0])
+    if len(Ks) == 1: K = Ks.pop()
     key = 'C15.R1:%s:yytbl_hdr_read:fixed-size' % SKEL
     if unit != 1 or not from_hsize or K is None:
         rep.broken('cannot recognise `fread(.., 1, th_hsize - K, ..)` in yytbl_hdr_read [%s]' % tag)
@@ -671,7 +701,7 @@ def reader_checks(ctx, v, W, doc):
     for c in prefix:
         f = field_addressed(dl, res, c.ops[0], ('yytbl_data',))
         fixed.append((RPRIM[norm(c.callee)], f[1] if f else None, c))
-    compare_chain(rep, tag, SKEL, 'yytbl_data_load', 'table', doc['table'], fixed, dl)
+    compare_chain(rep, tag, SKEL, 'yytbl_data_load', 'table', doc['table'], fixed, dl, W['tbl_fixed'])
     pi = pad_info(prog, dl, 'yytbl_reader', 'bread', RPRIM)
     key = 'C15.R1:%s:yytbl_data_load:pad-modulus' % SKEL
     if pi is None:
@@ -708,6 +738,44 @@ def reader_checks(ctx, v, W, doc):
     a0 = dcalls[0].ops[0]
     if first_elem_of(a0, 'yydmap'): rep.ok('C15.R3', '%s yytbl_fload: yytbl_data_load(yydmap, ...)' % tag)
     else: fail(rep, 'C15.R3', key, where(dcalls[0]), 'yytbl_fload does not pass the first entry of yydmap to yytbl_data_load [%s]' % tag)
+    # ---- the name the loader looks for is the name flex gives the set
+    tf = F['yytables_fload']
+    kc = [c for c in tf.ins if c.op == 'call' and norm(c.callee) == 'yytbl_fload']
+    if not kc: rep.broken('yytables_fload does not call yytbl_fload [%s]' % tag)
+    keystr = flow.const_arg(tf, kc[0].ops[1])
+    m = re.search(r'^/\* M4_MODE_PREFIX = (\S+) \*/$', open(v.src, errors='replace').read(), re.M)
+    if m is None: rep.broken('variant %s does not list M4_MODE_PREFIX' % tag)
+    want = m.group(1) + W['name_suffix']
+    key = 'C15.R3:%s:yytables_fload:set-name' % SKEL
+    if keystr == want: rep.ok('C15.R3', '%s yytables_fload looks for set "%s", flex names it "%%s%s" %% prefix' % (tag, keystr, W['name_suffix']))
+    else: fail(rep, 'C15.R3', key, where(kc[0]), 'yytables_fload looks for the table set "%s"; flex (prefix %s) names it "%s" (%s): the set is never found [%s]' % (keystr, m.group(1), want, where(W['name_site']), tag))
+    res = Resolver(fl); plain = prog.cfg(fl, cut=False)
+    BR = ('field', 'yytbl_reader', 'bread'); SS = ('field', 'yytbl_hdr', 'th_ssize'); HS = ('field', 'yytbl_hdr', 'th_hsize')
+    guard = None
+    for br, succ in plain.control_deps_closure(dcalls[0].blk):
+        d = fl.def_of(br.ops[0]) if br.op == 'br' and br.ops else None
+        if d is None or d.op != 'icmp': continue
+        l0 = linear(fl, res, d.ops[0]); l1 = linear(fl, res, d.ops[1])
+        if l0 is None or l1 is None: continue
+        if BR in l0 or BR in l1: guard = (br, succ, d, l0, l1)
+    key = 'C15.R1:%s:yytbl_fload:set-size' % SKEL
+    if guard is None:
+        fail(rep, 'C15.R1', key, where(dcalls[0]), 'yytbl_fload does not bound the loading of tables by bread against th_ssize [%s]' % tag)
+    else:
+        br, succ, d, l0, l1 = guard
+        taken = succ.name == br.targets[0]
+        lt = (l0 == {BR: 1} and l1 == {SS: 1} and ((d.pred in ('ult', 'slt')) == taken) and d.pred in ('ult', 'slt', 'uge', 'sge')) or \
+             (l1 == {BR: 1} and l0 == {SS: 1} and ((d.pred in ('ugt', 'sgt')) == taken) and d.pred in ('ugt', 'sgt', 'ule', 'sle'))
+        if lt: rep.ok('C15.R1', '%s yytbl_fload: tables are loaded while bread < th_ssize' % tag)
+        else: fail(rep, 'C15.R1', key, where(d), 'yytbl_fload loads tables while `%s %s %s`; the writer stores the size of the whole set (header included) in th_ssize and the reader counts bread from the start of the header [%s]' % (lin_str(l0), d.pred, lin_str(l1), tag))
+    fs = fl.calls('fseek')
+    key = 'C15.R1:%s:yytbl_fload:skip' % SKEL
+    if not fs:
+        fail(rep, 'C15.R1', key, fwhere(fl), 'yytbl_fload cannot skip a table set with another name (no fseek) [%s]' % tag)
+    else:
+        lf = linear(fl, res, fs[0].ops[1]); wh = const_of(fl, fs[0].ops[2])
+        if lf == {SS: 1, HS: -1} and wh == 1: rep.ok('C15.R1', '%s yytbl_fload: a set with another name is skipped by th_ssize - th_hsize from the end of its header' % tag)
+        else: fail(rep, 'C15.R1', key, where(fs[0]), 'yytbl_fload skips a foreign table set by `%s` (whence %s) after consuming th_hsize bytes of header; the next set starts th_ssize bytes after the start of this one [%s]' % (lin_str(lf) if lf else '?', wh, tag))
     R['F'] = F
     return R
 
@@ -779,10 +847,10 @@ class FlexConds:
                 for i in f.ins:
                     if i.op in ('call', 'invoke') and isinstance(i.callee, str): s._callers.setdefault(i.callee, []).append(i)
         return s._callers.get(name, [])
-    def of(s, ins, depth=0):
-        """(literals, complete) - the conjunction of decoded branch conditions under which `ins` executes"""
+    def local(s, ins):
+        """(literals, complete): decoded branch conditions inside its function under which `ins` executes"""
         fn = ins.fn
-        k = (fn.name, ins.blk.name)
+        k = (id(fn), ins.blk.name)
         if k in s._memo: return s._memo[k]
         cfg = s.prog.cfg(fn, cut=False); res = Resolver(fn)
         lits = []; ok = True
@@ -796,17 +864,20 @@ class FlexConds:
                 if fn.name in ROOTS: continue
                 ok = False; continue
             if (atom, pol) not in lits: lits.append((atom, pol))
-        if fn.name not in ROOTS and depth < 6:
-            cs = s.callers(fn.name)
-            if len(cs) == 1:
-                l2, ok2 = s.of(cs[0], depth + 1)
-                for l in l2:
-                    if l not in lits: lits.append(l)
-                ok = ok and ok2
-            elif len(cs) > 1:
-                ok = False
         s._memo[k] = (lits, ok)
         return lits, ok
+    def chain(s, fn, depth=0):
+        """conditions under which fn is called at all (followed while there is a single call site)"""
+        if fn.name in ROOTS or depth >= 6: return [], True
+        cs = s.callers(fn.name)
+        if not cs: return [], True
+        if len(cs) > 1: return [], False
+        return s.of(cs[0], depth + 1)
+    def of(s, ins, depth=0):
+        """(literals, complete) - the conjunction of decoded branch conditions under which `ins` executes"""
+        l1, ok1 = s.local(ins)
+        l2, ok2 = s.chain(ins.fn, depth)
+        return l1 + [l for l in l2 if l not in l1], ok1 and ok2
 
 def atom_str(a):
     c = a[1]
@@ -833,8 +904,12 @@ def symbol_map(prog, fc):
     return out, n
 
 def variant_symbols(v):
+    """m4 mode symbols flex lists as comments in the generated file"""
     t = open(v.src, errors='replace').read()
-    return set(re.findall(r'^/\* (M4_[A-Z0-9_.]+)(?: = [^*]*)? \*/$', t, re.M))
+    s = set(re.findall(r'^/\* (M4_[A-Z0-9_.]+)(?: = [^*]*)? \*/$', t, re.M))
+    if 'M4_MODE_TABLESEXT' not in s or 'M4_YY_TABLES_VERIFY' not in s:
+        raise common.AnalysisBroken('cannot read the m4 mode symbols of variant %s from its generated file (M4_MODE_TABLESEXT / M4_YY_TABLES_VERIFY not listed)' % v.name)
+    return s
 
 def eval_atom(symmap, syms, atom):
     pn = symmap.get(atom)
@@ -847,40 +922,57 @@ def eval_atom(symmap, syms, atom):
     return False if pos else True
 
 def written_tables(ctx, W, fc):
-    """every yytbl_data_fwrite call in flex: (call, ids, literals, complete)"""
+    """every yytbl_data_fwrite call in flex: (call, ids, literals, complete).  A call inside a helper that receives the
+    table as a parameter yields one entry per call site of the helper."""
     rep = ctx.rep; prog = ctx.flex
-    sites = []
     init = 'yytbl_data_init'
     def ids_made_by(g):
         return sorted({c.ops[1][1] for c in g.calls(init) if c.ops[1][0] == 'int'})
-    for c in fc.callers('yytbl_data_fwrite'):
+    def origins(c, argi, depth=0):
+        """[(ids, context call or None)] for the table passed as argument #argi of call c"""
         fn = c.fn; cfg = prog.cfg(fn, cut=False); res = Resolver(fn)
-        ld = fn.def_of(flow.strip_casts(fn, c.ops[1]))
+        ld = fn.def_of(flow.strip_casts(fn, c.ops[argi]))
         if ld is None or ld.op != 'load' or res.loc(ld.ops[0])[0] != 'local':
-            rep.broken('cannot tell which table is passed to yytbl_data_fwrite at %s' % where(c))
+            rep.broken('cannot tell which table is passed to %s at %s' % (c.callee, where(c)))
         slot = ld.ops[0]
         sts = [x for x in fn.ins if x.op == 'store' and x.ops[1] == slot]
-        ids = set()
+        out = []
         for s_ in sts:
             if s_.ops[0] == ('null',): continue
-            if c not in cfg.reach(s_, avoid=[y for y in sts if y is not s_]): continue
+            region = cfg.reach(s_, avoid=[y for y in sts if y is not s_])
+            if c not in region: continue
+            pidx = [k for k, (_, pn) in enumerate(fn.params) if s_.ops[0] == ('reg', pn)]
+            if pidx:
+                if depth >= 3: rep.broken('table parameter chain too deep at %s' % where(c))
+                ccs = fc.callers(fn.name)
+                if not ccs: rep.broken('%s() passes its parameter to %s but is never called' % (fn.name, c.callee))
+                for cc in ccs:
+                    for ids, ctxc in origins(cc, pidx[0], depth + 1): out.append((ids, ctxc or cc))
+                continue
             src = fn.def_of(flow.strip_casts(fn, s_.ops[0]))
             if src is None or src.op != 'call' or not isinstance(src.callee, str):
-                rep.broken('table pointer of unknown origin reaches yytbl_data_fwrite at %s' % where(c))
+                rep.broken('table pointer of unknown origin reaches %s at %s' % (c.callee, where(c)))
             g = prog.fn(src.callee)
             if g is not None and g.blocks:
                 made = ids_made_by(g)
                 if not made: rep.broken('%s() returns a table but gives no constant id to yytbl_data_init' % g.name)
-                ids |= set(made)
+                out.append((made, None))
             else:
-                region = cfg.reach(s_, avoid=[y for y in sts if y is not s_])
                 found = [i for i in fn.calls(init) if i in region and c in cfg.reach(i) and derives_from_slot(fn, i.ops[0], slot)]
                 if not found or any(i.ops[1][0] != 'int' for i in found):
-                    rep.broken('no yytbl_data_init with a constant id between the allocation and yytbl_data_fwrite at %s' % where(c))
-                ids |= {i.ops[1][1] for i in found}
-        if not ids: rep.broken('no table definition reaches yytbl_data_fwrite at %s' % where(c))
-        lits, ok = fc.of(c)
-        sites.append((c, sorted(ids), lits, ok))
+                    rep.broken('no yytbl_data_init with a constant id between the allocation and %s at %s' % (c.callee, where(c)))
+                out.append((sorted({i.ops[1][1] for i in found}), None))
+        if not out: rep.broken('no table definition reaches %s at %s' % (c.callee, where(c)))
+        return out
+    sites = []
+    for c in fc.callers('yytbl_data_fwrite'):
+        for ids, ctxc in origins(c, 1):
+            if ctxc is None:
+                lits, ok = fc.of(c)
+                sites.append((c, ids, lits, ok))
+            else:
+                l1, ok1 = fc.local(c); l2, ok2 = fc.of(ctxc)
+                sites.append((ctxc, ids, l1 + [l for l in l2 if l not in l1], ok1 and ok2))
     return sites
 
 def parse_dmap(mod):
@@ -890,7 +982,7 @@ def parse_dmap(mod):
         if norm(n) == 'yydmap': g = gv
     if g is None or g.init is None or g.init[0] != 'agg': return None
     ents = []
-    for m in re.finditer(r'%struct\.yytbl_dmap (zeroinitializer|\{ i32 (-?\d+), i8\*\* ([^{}]*?), i64 (\d+) \})', g.init[1]):
+    for m in re.finditer(r'%struct\.yytbl_dmap (zeroinitializer|\{ i32 (-?\d+), i8\*\* (.*?), i64 (\d+) \})(?=, %struct\.yytbl_dmap |\]$)', g.init[1].strip()):
         if m.group(1) == 'zeroinitializer': ents.append((0, None, 0))
         else:
             gm = re.search(r'@("(?:[^"\\]|\\.)*"|[-\w.$]+)', m.group(3))
@@ -904,8 +996,13 @@ def elem_type(mod, gname):
     if g is None or g.ty is None: return None
     t = g.ty
     if t.k == 'ptr': return t.a
-    while t.k == 'arr': t = t.b
-    return t
+    # an array object; clang may type a partly zero initialiser as a packed literal struct of equal leaves
+    def leaves(x):
+        if x.k == 'arr': return leaves(x.b)
+        if x.k == 'struct': return set().union(*[leaves(f) for f in x.a]) if x.a else set()
+        return {x}
+    ls = leaves(t)
+    return ls.pop() if len(ls) == 1 else None
 
 def r3_r4(ctx, vs, sites, symmap, idname):
     rep = ctx.rep
@@ -929,7 +1026,7 @@ def r3_r4(ctx, vs, sites, symmap, idname):
         for i in sorted(dup):
             fail(rep, 'C15.R3', 'C15.R3:%s:yydmap:duplicate:%s' % (SKEL, idname(i)), 'yydmap', 'yydmap lists %s twice; only the first entry is ever found [%s]' % (idname(i), v.name), variant=v.describe())
         # ---- R4
-        for i, gname, sz in live:
+        for i, gname, sz in [e for e in ents if e[0] != 0]:
             key = 'C15.R4:%s:yydmap:%s' % (SKEL, idname(i))
             et = elem_type(mod, gname) if gname else None
             if et is None: rep.broken('yydmap entry %s of %s points to unknown global %s' % (idname(i), v.name, gname))
@@ -1034,8 +1131,11 @@ def r4_generator(ctx, fc):
     rep = ctx.rep; prog = ctx.flex
     skel = ctx.art.source(SKEL)
     for decl_sym, dm_sym, table, anchors in COUPLED_TYPES:
-        for a in anchors:
-            if a not in skel: rep.broken('cpp-flex.skl no longer couples %s and %s for %s (anchor "%s" not found)' % (decl_sym, dm_sym, table, a))
+        gone = [a for a in anchors if a not in skel]
+        if gone:
+            # the skeleton no longer builds this table from the two symbols; R4 on the instantiated variants is the authority
+            rep.note('cpp-flex.skl no longer couples %s and %s for %s (anchor "%s" not found); generator-side size comparison skipped' % (decl_sym, dm_sym, table, gone[0]))
+            continue
         forms = {}
         for sym in (decl_sym, dm_sym):
             for c in fc.callers('out_str'):
@@ -1112,8 +1212,18 @@ def r6(ctx, v):
         if d is not None and d.op == 'getelementptr' and len(d.ops) == 2 and d.ops[1] == ('int', 1) and derives_from_slot(fn, d.ops[0], slot): adv.append(x)
     if len(adv) != len(others) or not adv:
         fail(rep, 'C15.R6', key0 + ':advance', where(others[0]) if others else fwhere(fn), 'yytables_destroy does not advance through yydmap one entry at a time [%s]' % v.name, variant=v.describe()); return
-    # the free is controlled only by: dm_id != 0 of the cursor, and null tests of the very pointers involved
+    # after an entry has been handled the walk continues: no return reachable from the loop body without advancing
     plain = prog.cfg(fn, cut=False)
+    body_entry = None
+    for br, succ in plain.control_deps_closure(fr.blk):
+        lds = [d for d in flow.value_slice(fn, br.ops[0]) if d.op == 'load']
+        if any(field_of(res.loc(d.ops[0])) == ('yytbl_dmap', 'dm_id') for d in lds): body_entry = succ
+    if body_entry is None:
+        fail(rep, 'C15.R6', key0 + ':guard', where(fr), 'the walk of yytables_destroy is not controlled by the dm_id of the entry it looks at (no terminator test) [%s]' % v.name, variant=v.describe()); return
+    esc = cfg.reach_from_block(body_entry, avoid=adv)
+    if any(x.op == 'ret' for x in esc):
+        fail(rep, 'C15.R6', key0 + ':early-exit', where(fr), 'yytables_destroy can leave the walk before the terminator (a return is reachable from the loop body without advancing): later tables are not released [%s]' % v.name, variant=v.describe()); return
+    # the free is controlled only by: dm_id != 0 of the cursor, and null tests of the very pointers involved
     bad = None; saw_id = False
     for br, succ in plain.control_deps_closure(fr.blk):
         r = decode_bool(fn, res, br.ops[0]) if br.op == 'br' and br.ops else None
@@ -1131,19 +1241,38 @@ def r6(ctx, v):
         if not ok: bad = br
     if bad is not None or not saw_id:
         fail(rep, 'C15.R6', key0 + ':guard', where(bad) if bad is not None else where(fr), 'the yyfree in yytables_destroy is guarded by a condition other than "entry id non-zero" and "pointer non-null": some loaded tables are not released [%s]' % v.name, variant=v.describe()); return
-    # after an entry has been handled the walk continues: no return reachable from the loop body without advancing
-    body_entry = None
-    for br, succ in plain.control_deps_closure(fr.blk):
-        lds = [d for d in flow.value_slice(fn, br.ops[0]) if d.op == 'load']
-        if any(field_of(res.loc(d.ops[0])) == ('yytbl_dmap', 'dm_id') for d in lds): body_entry = succ
-    esc = cfg.reach_from_block(body_entry, avoid=adv)
-    if any(x.op == 'ret' for x in esc):
-        fail(rep, 'C15.R6', key0 + ':early-exit', where(fr), 'yytables_destroy can leave the walk before the terminator (a return is reachable from the loop body without advancing): later tables are not released [%s]' % v.name, variant=v.describe()); return
     # reset: *dm_arr = NULL after the free
     rs = [x for x in cfg.reach(fr, avoid=adv) if x.op == 'store' and x.ops[0] == ('null',) and via_dm_arr(x.ops[1])]
     if not rs:
         fail(rep, 'C15.R6', key0 + ':reset', where(fr), 'yytables_destroy frees *dm_arr but leaves the dangling pointer in place: a second yytables_destroy (or a scanner that tests the pointer) uses freed memory [%s]' % v.name, variant=v.describe()); return
     rep.ok('C15.R6', '%s yytables_destroy: for each entry up to the terminator: yyfree(*dm_arr)@%s, *dm_arr = NULL@%s' % (v.name, fr.line, rs[0].line))
+
+# ---------------------------------------------------------------- more option combinations for R3/R4
+
+_extra = {}
+def extra_variants(ctx):
+    """tables-file variants beyond the core list: every table representation with and without equivalence classes,
+    yylineno, align, 8-bit, verify with -Cf/-CF, and a prefix (set name).  Instantiated by the freshly built flex and
+    compiled to IR exactly like the core variants; nothing is run."""
+    if ctx.art.dir in _extra: return _extra[ctx.art.dir]
+    from variants import Variant, PLAIN, NOREJ, FULL
+    TF = 'tables-file="lex.tables"'
+    V = [Variant('nr_tables_Cfe', 'nr', PLAIN, [TF, 'full', 'ecs'], tables=True),
+         Variant('nr_tables_CFe', 'nr', PLAIN, [TF, 'fast', 'ecs'], tables=True),
+         Variant('nr_tables_CF_lineno', 'nr', PLAIN, [TF, 'fast', 'yylineno'], tables=True),
+         Variant('nr_tables_Cfa', 'nr', PLAIN, [TF, 'full', 'align'], tables=True),
+         Variant('nr_tables_Ca', 'nr', NOREJ, [TF, 'align', 'yylineno'], tables=True),
+         Variant('nr_tables_rej_lineno', 'nr', FULL, [TF, 'yylineno'], tables=True),
+         Variant('nr_verify_Cf', 'nr', PLAIN, [TF, 'tables-verify', 'full'], tables=True),
+         Variant('nr_verify_CF', 'nr', PLAIN, [TF, 'tables-verify', 'fast'], tables=True),
+         Variant('r_tables_prefix', 'r', NOREJ, [TF, 'prefix="foo"', 'yylineno'], tables=True),
+         Variant('nr_tables_CF8', 'nr', PLAIN, [TF, 'fast', '8bit'], tables=True),
+         Variant('nr_tables_Cf8', 'nr', PLAIN, [TF, 'full', '8bit'], tables=True),
+         Variant('nr_tables_noecs', 'nr', NOREJ, [TF, 'noecs', 'nometa-ecs'], tables=True),
+         Variant('nr_verify_rej', 'nr', FULL, [TF, 'tables-verify', 'yylineno'], tables=True)]
+    variants.instantiate(ctx.art, V, 'c15')
+    _extra[ctx.art.dir] = V
+    return V
 
 # ---------------------------------------------------------------- driver
 
@@ -1233,9 +1362,11 @@ def run(ctx):
     if noatom: rep.broken('no m4 mode symbol witnesses the generator condition(s) %s; cannot tell per variant which tables are written' % noatom)
 
     # ---- readers
-    vs = ctx.variants(lambda v: v.tables)
+    vs = ctx.variants(lambda v: v.tables and v.backend != 'cxx') + [v for v in extra_variants(ctx) if v.ll is not None]
+    if ctx.variants(lambda v: v.tables and v.backend == 'cxx'):
+        rep.note('a C++ tables-file variant compiles on this tree; its loader (mangled names, class members) is not analysed by C15 yet')
     if len(vs) < 6:
-        lost = [v for v in ctx.variants(lambda v: v.tables, need_ir=False) if v.ll is None]
+        lost = [v for v in ctx.variants(lambda v: v.tables, need_ir=False) + extra_variants(ctx) if v.ll is None and v.backend != 'cxx']
         why = '; '.join('%s: %s' % (v.name, ((v.stderr or '').strip().split('\n') or [''])[-1][:120] if v.refused or v.crashed else 'does not compile') for v in lost[:4])
         if [x for x in rep.viol]:
             # the writer is already known to be wrong and flex's own sanity checks stop it from producing the variants:
@@ -1265,10 +1396,10 @@ def run(ctx):
     rep.setcount('table_ids_written', len(all_written))
     rep.setcount('variant_table_pairs_decided', decided)
 
-    rep.floor('C15.R1', 25 + 20 * len(vs), 'writer: 3+2 primitives x2, 4+4 fields, 3 arms, strings, pad, patch, hsize; per variant: 6 primitive checks, 8 fields, 3 arms, 14, bread, 2 pad')
+    rep.floor('C15.R1', 25 + 22 * len(vs), 'writer: 3+2 primitives x2, 4+4 fields, 3 arms, strings, pad, patch, hsize; per variant: 6 primitive checks, 8 fields, 3 arms, 14, bread, 2 pad')
     rep.floor('C15.R2', 2 + 2 * len(vs), 'write16/32 and read16/32 of every variant')
     rep.floor('C15.R3', 12 + 10 * len(vs), 'ids written, per-variant written/expected pairs, terminators, yydmap hand-over')
-    rep.floor('C15.R4', 31, 'yydmap entries of the tables variants (2-8 each) + the coupled type symbols in the generator')
+    rep.floor('C15.R4', 4 * len(vs), 'yydmap entries of the tables variants (2-8 each; 104 in 20 variants today) (+1: the coupled type symbols in the generator)')
     rep.floor('C15.R5', 17 * (1 + len(vs)), 'magic, 17 enumerators and the flags decoding, flex and every variant')
     rep.floor('C15.R6', len(vs), 'yytables_destroy of every variant')
     rep.undecided += ['that a loaded table has the same contents as the in-code table (value level round trip)',
